@@ -22,6 +22,8 @@
 //	c.ExpireHeartbeats()                    // job clock +10s and live workers re-register: the job purges the dead ones
 //	c.Deregister(w)                         // alternative to ExpireHeartbeats: explicit deregistration (graceful stop path)
 //	c.RestartJob(workers)                   // crash the job too: every worker dies, new jobs.Job over the same store, new WorkerCount
+//	c.AwaitFlushed(timeout)                 // no live operator has a sealed memtable left to flush
+//	c.InjectReadOutage(w, after, n)         // transient storage outage: n data reads of worker w's table files fail (after `after` more)
 //	c.FireTimers()                          // fire all pending batch time-outs (batch MaxDelay is virtual; Await does it for you)
 //	c.Await(cond, timeout)                  // wait on explicit signals: cond is re-evaluated after every logged observation
 //	c.Log()                                 // snapshot of all observations (invocations, emissions, assignments, acks, published...)
@@ -68,6 +70,7 @@ import (
 	"reduction.dev/reduction/connectors"
 	"reduction.dev/reduction/connectors/embedded"
 	"reduction.dev/reduction/dkv"
+	"reduction.dev/reduction/dkv/storage"
 	"reduction.dev/reduction/jobs"
 	"reduction.dev/reduction/proto"
 	"reduction.dev/reduction/proto/jobpb"
@@ -522,9 +525,13 @@ type worker struct {
 	srTimer  *manualTimer
 	dead     chan struct{}
 	deadOnce sync.Once
-	gen      atomic.Int64
-	cancel   context.CancelFunc
-	done     chan struct{} // both Start calls returned
+	// storage fault injection: data-region reads of table files, counted per worker; reads numbered in (outFrom, outTo] fail
+	reads   atomic.Int64
+	outFrom atomic.Int64
+	outTo   atomic.Int64
+	gen     atomic.Int64
+	cancel  context.CancelFunc
+	done    chan struct{} // both Start calls returned
 }
 
 func (w *worker) isDead() bool {
@@ -579,6 +586,18 @@ func New(opts Options) (*Cluster, error) {
 		t = *opts.DKV
 	}
 	verifhook.SetTuning("dkv", t)
+	// Operator.HandleDeploy offers its DKV file system at hook point "operator.deploy.fs": wrap it for fault injection.
+	// (verifhook has ONE global callback: an engine that installs its own afterwards loses InjectReadOutage only.)
+	verifhook.Set(func(name string, args ...any) {
+		if name != "operator.deploy.fs" || len(args) != 1 {
+			return
+		}
+		if pfs, ok := args[0].(*storage.FileSystem); ok && pfs != nil {
+			if c := currentCluster.Load(); c != nil {
+				*pfs = c.wrapFS(*pfs)
+			}
+		}
+	})
 	c := &Cluster{opts: opts, log: &logBox{changed: make(chan struct{})}, byOpID: map[string]*worker{}, bySrID: map[string]*worker{}, started: map[string]bool{}}
 	if err := os.MkdirAll(filepath.Join(opts.Dir, "work"), 0o755); err != nil {
 		return nil, err
@@ -586,7 +605,179 @@ func New(opts Options) (*Cluster, error) {
 	if err := c.newJob(opts.Workers); err != nil {
 		return nil, err
 	}
+	currentCluster.Store(c)
 	return c, nil
+}
+
+// ---------------------------------------------------------------- storage faults
+
+var currentCluster atomic.Pointer[Cluster]
+var errStorageOutage = errors.New("clusterlib: injected transient storage outage")
+
+// wrapFS identifies the deploying operator by the directory of its file system (<work>/<operator id>).
+func (c *Cluster) wrapFS(fs storage.FileSystem) storage.FileSystem {
+	lfs, ok := fs.(*storage.LocalFilesystem)
+	if !ok {
+		c.errorf("wrapFS: unexpected file system %T", fs)
+		return fs
+	}
+	c.mu.Lock()
+	w := c.byOpID[filepath.Base(lfs.Dir)]
+	c.mu.Unlock()
+	if w == nil {
+		c.errorf("wrapFS: no worker for %q", lfs.Dir)
+		return fs
+	}
+	return &faultFS{FileSystem: fs, w: w}
+}
+
+// AwaitFlushed waits (polling; liveness only) until no live operator has a sealed memtable waiting to be flushed, so that
+// a checkpoint taken next references the state in table files rather than only in its WAL.
+func (c *Cluster) AwaitFlushed(timeout time.Duration) bool {
+	deadline := time.Now().Add(timeout)
+	for {
+		c.mu.Lock()
+		ws := append([]*worker{}, c.workers...)
+		c.mu.Unlock()
+		pending := false
+		for _, w := range ws {
+			if w.isDead() || w.gen.Load() == 0 {
+				continue
+			}
+			if db := w.op.VerifDKV(); db != nil && db.VerifMemtableCount() > 1 {
+				pending = true
+			}
+		}
+		if !pending {
+			return true
+		}
+		if time.Now().After(deadline) {
+			return false
+		}
+		time.Sleep(200 * time.Microsecond)
+	}
+}
+
+// InjectReadOutage makes the worker's DKV storage fail transiently: counting from now, the data-region reads of table
+// files (not their footers / indexes, whose read errors the DKV turns into panics) numbered after+1 .. after+n fail.
+func (c *Cluster) InjectReadOutage(worker, after, n int) {
+	c.mu.Lock()
+	w := c.workers[worker]
+	c.mu.Unlock()
+	from := w.reads.Load() + int64(after)
+	w.outTo.Store(from + int64(n))
+	w.outFrom.Store(from)
+}
+
+// DataReads is the number of data-region reads of table files the worker's DKV has issued so far.
+func (c *Cluster) DataReads(worker int) int {
+	c.mu.Lock()
+	w := c.workers[worker]
+	c.mu.Unlock()
+	return int(w.reads.Load())
+}
+
+// ReadOutageHits reports how many reads of the worker failed so far in the injected window.
+func (c *Cluster) ReadOutageHits(worker int) int {
+	c.mu.Lock()
+	w := c.workers[worker]
+	c.mu.Unlock()
+	r, from, to := w.reads.Load(), w.outFrom.Load(), w.outTo.Load()
+	if r > to {
+		r = to
+	}
+	if r <= from {
+		return 0
+	}
+	return int(r - from)
+}
+
+type faultFS struct {
+	storage.FileSystem
+	w *worker
+}
+
+// Every file of a worker goes through faultFile. A crashed process does no I/O: db.Close is a no-op in the real code, so the
+// DKV of a killed worker keeps flushing / compacting / collecting tables in this process; its reads and writes therefore
+// BLOCK forever once the worker is dead (an error would be turned into a panic by the DKV's metadata loaders and would kill
+// the engine), and its deletions are dropped (they would remove files the next generation restored from).
+func (f *faultFS) wrap(path string, file storage.File) storage.File {
+	return &faultFile{File: file, w: f.w, sst: strings.HasSuffix(path, ".sst")}
+}
+func (f *faultFS) Open(path string) storage.File { return f.wrap(path, f.FileSystem.Open(path)) }
+func (f *faultFS) New(path string) storage.File  { return f.wrap(path, f.FileSystem.New(path)) }
+func (f *faultFS) Copy(source string, destination string) error {
+	if f.w.isDead() {
+		select {}
+	}
+	return f.FileSystem.Copy(source, destination)
+}
+
+type faultFile struct {
+	storage.File
+	w       *worker
+	sst     bool
+	entries atomic.Int64 // size of the data region (0: not known yet)
+}
+
+func (f *faultFile) Write(p []byte) (int, error) {
+	if f.w.isDead() {
+		select {}
+	}
+	return f.File.Write(p)
+}
+func (f *faultFile) Save() error {
+	if f.w.isDead() {
+		select {}
+	}
+	return f.File.Save()
+}
+func (f *faultFile) Delete() error {
+	if f.w.isDead() {
+		return nil
+	}
+	return f.File.Delete()
+}
+func (f *faultFile) CreateDeleteFunc() func() error {
+	del := f.File.CreateDeleteFunc()
+	return func() error {
+		if f.w.isDead() {
+			return nil
+		}
+		return del()
+	}
+}
+
+func (f *faultFile) ReadAt(p []byte, off int64) (int, error) {
+	if f.w.isDead() {
+		select {}
+	}
+	if !f.sst {
+		return f.File.ReadAt(p, off)
+	}
+	es := f.entries.Load()
+	if es == 0 {
+		size := f.File.Size()
+		if size == 0 { // a DiskFile opened for reading does not know its size
+			if st, err := os.Stat(f.File.URI()); err == nil {
+				size = st.Size()
+			}
+		}
+		if size >= 12 {
+			var b [8]byte
+			if _, err := f.File.ReadAt(b[:], size-12); err == nil {
+				es = int64(binary.LittleEndian.Uint64(b[:]))
+				f.entries.Store(es)
+			}
+		}
+	}
+	if es > 0 && off < es {
+		n := f.w.reads.Add(1)
+		if n > f.w.outFrom.Load() && n <= f.w.outTo.Load() {
+			return 0, errStorageOutage
+		}
+	}
+	return f.File.ReadAt(p, off)
 }
 
 func (c *Cluster) JobStoreDir() string { return filepath.Join(c.opts.Dir, "job") }
